@@ -37,11 +37,7 @@ macro_rules! encode_large {
         }
     };
 }
-//@ name=c17_k8k_encode_large_r10_3 prop=C17,C11 tier=thorough profile=k8k funcs="RadixDivisionParams::encode_limbs (large-divisor recursion),radix_large_divisor,div_rem_vartime_in_place" bound="u8 words, LARGE = 2: radix 10, 3 limbs: limbs [S(2), S(2), free]" free_bits=14
-encode_large!(c17_k8k_encode_large_r10_3, 3, 10, 11, Uint::new([Limb(shaped_word(2)), Limb(shaped_word(2)), Limb(kani::any())]));
-//@ name=c17_k8k_encode_large_r7_4 prop=C17,C11 tier=thorough profile=k8k funcs="RadixDivisionParams::encode_limbs (large-divisor recursion, two rounds)" bound="u8 words, LARGE = 2: radix 7, 4 limbs: limbs [S(1), S(1), S(2), free]" free_bits=15
-encode_large!(c17_k8k_encode_large_r7_4, 4, 7, 14, Uint::new([Limb(shaped_word(1)), Limb(shaped_word(1)), Limb(shaped_word(2)), Limb(kani::any())]));
 //@ name=c17_k8k_encode_large_r36_3 prop=C17,C11 tier=thorough profile=k8k funcs="RadixDivisionParams::encode_limbs (large-divisor recursion)" bound="u8 words, LARGE = 2: radix 36, 3 limbs: limbs [S(2), S(2), free]" free_bits=14
 encode_large!(c17_k8k_encode_large_r36_3, 3, 36, 8, Uint::new([Limb(shaped_word(2)), Limb(shaped_word(2)), Limb(kani::any())]));
-//@ name=c17_k8k_encode_large_r3_5 prop=C17,C11 tier=thorough profile=k8k funcs="RadixDivisionParams::encode_limbs (large-divisor recursion, three rounds)" bound="u8 words, LARGE = 2: radix 3, 5 limbs: limbs [S(1) x4, free]" free_bits=16
-encode_large!(c17_k8k_encode_large_r3_5, 5, 3, 32, Uint::new([Limb(shaped_word(1)), Limb(shaped_word(1)), Limb(shaped_word(1)), Limb(shaped_word(1)), Limb(kani::any())]));
+// radix 10 / 7 / 3 instances (3-5 limbs) exhausted memory or time (the large-divisor loop runs boxed division on
+// slices of symbolic length); only the radix-36 instance finishes, in the thorough tier.
